@@ -35,7 +35,27 @@ func VxH_C17_validate() {
 		return transformFunction(pa.NewFunctionBlock(pa.Pos{}, name, args))
 	}
 	const pi = 3.141592653589793
-	switch vx.Choose("function", 11) {
+	switch vx.Choose("function", 12) {
+	case 11:
+		// skew( <angle> [, <angle>]? ) — CSS Transforms 1, 7.1
+		two := vx.Choose("skew-arguments", 2) == 1
+		var out pr.SDimensions
+		var err error
+		if two {
+			out, err = fn("skew", vxDim(v, "deg"), comma, vxDim(w, "rad"))
+		} else {
+			out, err = fn("skew", vxDim(v, "deg"))
+		}
+		vx.Reach("skew")
+		vx.Assert("skew-accepted", err == nil && out.String == "skew" && len(out.Dimensions) == 2)
+		if err == nil && len(out.Dimensions) == 2 {
+			vx.Assert("skew-x-angle", eq(out.Dimensions[0], float64(v)*pi/180))
+			if two {
+				vx.Assert("skew-y-angle", eq(out.Dimensions[1], float64(w)))
+			} else {
+				vx.Assert("skew-y-angle", eq(out.Dimensions[1], 0))
+			}
+		}
 	case 0, 1, 2:
 		units := []string{"deg", "grad", "rad", "turn"}
 		factor := []float64{pi / 180, pi / 200, 1, 2 * pi}
